@@ -207,8 +207,19 @@ func hReaderOp(l List, b List, o Object, op int) any {
 		return o.TypeOfTF(".l#0")
 	case 20:
 		return o.Equals(o.Clone())
-	default:
+	case 21:
 		return l.FormatString(2)
+	case 22:
+		// the async variants with pure callbacks are non-mutating operations too
+		l.ForEachAsync(func(i int, v any) {})
+		return l.Count()
+	case 23:
+		return l.MapAsync(func(i int, v any) any { return v })
+	case 24:
+		o.ForEachAsync(func(k string, v any) {})
+		return o.Count()
+	default:
+		return o.MapAsync(func(k string, v any) any { return v })
 	}
 }
 
@@ -258,4 +269,86 @@ func hSameResult(a, b any) bool {
 		return ok && hExact(hSnapAny(x), hSnapAny(y))
 	}
 	return a == b
+}
+
+// a callback that itself runs a non-mutating async call on the same container (re-entrancy): the outer
+// call still completes, with exactly one call per element
+func H_C15_reentrant_async() {
+	x := nondetInt()
+	l := NewList(x, 2)
+	o := NewObject("a", x, "b", 2)
+	outer, inner := 0, 0
+	var mu sync.Mutex
+	pre := 0
+	if verifTier() > 0 {
+		pre = 1
+	}
+	verifBound("PREEMPTIONS_NESTED", pre)
+	verifSchedAll(pre)
+	p := verifCatch(func() {
+		switch nondetIntRange(0, 3) {
+		case 0:
+			l.ForEachAsync(func(i int, v any) {
+				l.ForEachAsync(func(j int, w any) { mu.Lock(); inner++; mu.Unlock() })
+				mu.Lock()
+				outer++
+				mu.Unlock()
+			})
+		case 1:
+			o.ForEachAsync(func(k string, v any) {
+				o.ForEachAsync(func(k2 string, w any) { mu.Lock(); inner++; mu.Unlock() })
+				mu.Lock()
+				outer++
+				mu.Unlock()
+			})
+		case 2:
+			o.ForEachAsync(func(k string, v any) {
+				r := o.MapAsync(func(k2 string, w any) any { return w })
+				mu.Lock()
+				inner += r.Count()
+				outer++
+				mu.Unlock()
+			})
+		default:
+			l.ForEachAsync(func(i int, v any) {
+				r := l.MapAsync(func(j int, w any) any { return w })
+				mu.Lock()
+				inner += r.Count()
+				outer++
+				mu.Unlock()
+			})
+		}
+	})
+	verifAssert(!p, "an async call whose callback runs another non-mutating async call on the same container completes (no deadlock, no panic)")
+	if !p {
+		verifAssert(outer == 2 && inner == 4, "ForEachAsync calls the function exactly once per element, also when calls are nested")
+	}
+	verifAssert(verifRaces() == 0, "no data race in nested async calls under any explored schedule")
+	verifReach("end")
+}
+
+// two goroutines run the same async call (pure callbacks: a non-mutating operation) on one shared container
+func H_C15_concurrent_async_calls() {
+	x := nondetInt()
+	b := NewList(x)
+	l := NewList(x, b)
+	o := NewObject("a", x)
+	op := 22 + nondetIntRange(0, 3)
+	want := hReaderOp(l, b, o, op)
+	var r1, r2 any
+	var wg sync.WaitGroup
+	verifSchedAll(1)
+	wg.Add(2)
+	go func() {
+		r1 = hReaderOp(l, b, o, op)
+		wg.Done()
+	}()
+	go func() {
+		r2 = hReaderOp(l, b, o, op)
+		wg.Done()
+	}()
+	wg.Wait()
+	verifAssert(verifRaces() == 0, "concurrent non-mutating operations on a shared unmodified container are free of data races")
+	verifAssert(hSameResult(want, r1) && hSameResult(want, r2), "concurrent non-mutating operations return the same results as sequentially")
+	verifReach("end")
 }
